@@ -127,7 +127,7 @@ class Route:
 # =============================================================== suite 1: propagation
 class Prop:
     RUNNER = 'run_case_approx'      # means and interpolation among the operations: compared within 1e-9 relative
-    KEEP = ['get', 'reduce', 'cum', 'diff', 'transpose', 'swapaxes', 'newaxis', 'squeeze', 'flatten', 'reshape', 'reindex',
+    KEEP = ['get', 'get', 'reduce', 'cum', 'diff', 'transpose', 'swapaxes', 'newaxis', 'squeeze', 'flatten', 'reshape', 'reindex',
             'sort_axis', 'interp', 'take_axis', 'compress_axis', 'dropna', 'fillna', 'setna',
             # reshaping that EXPANDS a singleton dimension (newaxis with values, repeat, broadcast onto more labels), rollaxis, ungrouping
             'newaxis_values', 'repeat', 'broadcast', 'rollaxis', 'unflatten', 'put']
@@ -160,7 +160,18 @@ class Prop:
             name = rng.choice(Prop.KEEP + Prop.DROP)
             stats['propagation_op'][name] += 1
             ins = [a]; more = []
-            if name == 'get': op = ['get', 'getitem', {'dict': [[d, {'l': [labs[0]]}]]}, None, False, 'label']; op[1] = 'take'
+            if name == 'get':
+                # every kind of index: label list, scalar label, 1-d mask on one axis, positions, and (two or more dimensions) a
+                # boolean mask of the full shape
+                u = rng.random()
+                if nd >= 2 and u < 0.3:
+                    mask = [rng.random() < 0.5 for _ in a['flat']]
+                    op = ['get_ndmask', mask, rng.choice(['getitem_np', 'getitem_da', 'take', 'compress'])]
+                elif u < 0.5: op = ['get', 'take', {'dict': [[d, {'l': [labs[0]]}]]}, None, False, 'label']
+                elif u < 0.65: op = ['get', 'take', {'dict': [[d, {'s': labs[0]}]]}, None, rng.random() < 0.5, 'label']
+                elif u < 0.8: op = ['get', 'take', {'dict': [[d, {'m': [True] + [rng.random() < 0.5 for _ in labs[1:]]}]]}, None, False, 'label']
+                else: op = ['get', 'take_pos', {'dict': [[d, {'pl': [len(labs) - 1, 0]}]]}, None, False, 'label']
+                stats['propagation_index_form']['ndmask' if op[0] == 'get_ndmask' else list(op[2]['dict'][0][1])[0]] += 1
             elif name == 'reduce': op = ['reduce', rng.choice(['sum', 'mean', 'median', 'max']), False, d]
             elif name == 'cum': op = ['cum', False, False, d, False]
             elif name == 'diff':
@@ -212,7 +223,7 @@ class Prop:
         r = g['v']
         if c['kind'] == 'keep':
             if r['attrs'] != a['attrs']: return '%s: array metadata %r not carried over (got %r)' % (op[0], a['attrs'], r['attrs'])
-            if op[0] in ('get', 'reindex', 'take_axis', 'compress_axis', 'sort_axis'):
+            if op[0] in ('get', 'reindex', 'take_axis', 'compress_axis', 'sort_axis') and not (op[0] == 'get' and 's' in op[2]['dict'][0][1] and not op[4]):
                 for ax in r['axes']:
                     if ax['name'] == c['axis'] and ax['attrs'] != a['axattrs'][a['dims'].index(c['axis'])]:
                         return '%s: metadata of the sliced / reindexed axis lost' % op[0]
